@@ -68,8 +68,9 @@ TRUSTED_BASE = [
 ASSUMPTIONS = [
     "all basin maps stored in one file have the file's event count as length "
     "(numpy broadcasting of `==` in store_basin's reuse test is not modelled)",
-    "basin maps are in range of the basin's event count in the theorems "
-    "(out-of-range maps are only exercised in the correspondence)",
+    "basin maps are in range of the basin's event count (theorems and "
+    "generator; the model returns an error for out-of-range entries but "
+    "that behaviour is not compared)",
     "basins are acyclic: every basin refers to a file created earlier (C14 "
     "covers cycles)",
 ]
@@ -309,8 +310,11 @@ def build_files(case, d, truth):
                             base = [src["omap"][r] for r in b["rows"]]
                             idata = {}
                             for unit in b["feats"]:
-                                rows = _rows(truth, unit, base, False)
+                                rows = _rows(truth, unit, base,
+                                             bool(b.get("decoy")))
                                 idata[unit] = _feature_data(unit, rows)
+                            if b.get("decoy"):
+                                info["decoyfeat"] = set(expand(b["feats"]))
                             hw.store_basin(
                                 basin_name="int%d" % bi,
                                 basin_type="internal",
@@ -440,12 +444,15 @@ def build_files(case, d, truth):
             try:
                 info["struct"] = check_basin_defs(path, info, files)
             except BaseException:
-                # another file layout: no judgement from this check
+                # another file layout: no judgement from this check, but
+                # the run counts it (and fails if it happens often)
                 info["struct"] = None
+                info["struct_skipped"] = True
             try:
                 info["chain"] = chain_observation(case, k, path, files)
             except BaseException:
                 info["chain"] = None
+                info["struct_skipped"] = True
         files.append(info)
     return files
 
@@ -549,7 +556,7 @@ def py_index(ix):
         return np.array(ix[1], dtype=bool)
     if t == "arr":
         return np.array(ix[1], dtype=np.int64)
-    if t in ("all", "iter", "array", "cast"):
+    if t in ("all", "iter", "array", "cast", "max", "min", "mean"):
         return slice(None)
     raise ValueError(ix)
 
@@ -565,7 +572,8 @@ def expected(truth, info, feat, ix):
         pos = np.arange(len(omap))[py_index(ix)]
     except (IndexError, ValueError):
         return 2, []
-    dec = info["innate"].get(feat, False)
+    dec = info["innate"].get(feat, False) or (
+        feat not in info["innate"] and feat in info.get("decoyfeat", ()))
 
     def val(j):
         v = truth[feat][j]
@@ -574,7 +582,14 @@ def expected(truth, info, feat, ix):
         pos = np.asarray(pos)
     if np.ndim(pos) == 0:
         return 0, [val(omap[int(pos)])]
-    if ix[0] == "cast":
+    if ix[0] in ("max", "min", "mean"):
+        vals = [val(omap[int(p)]) for p in pos]
+        if not vals:
+            return 2, []
+        if ix[0] == "mean":
+            return 1, []
+        return 0, [max(vals) if ix[0] == "max" else min(vals)]
+    if ix[0] == "cast" and feat in SCALARS:
         # np.array(obj, dtype=int): truncation towards zero
         import math
         return 1, [math.trunc(val(omap[int(p)]) / 8) * 8 for p in pos]
@@ -595,6 +610,16 @@ def observe(ds, feat, ix):
         if ix[0] == "iter":
             # iteration over the feature object
             res = [v for v in obj]
+        elif ix[0] in ("max", "min"):
+            # summaries of the (mapped) feature
+            return 0, [fp(feat, getattr(obj, ix[0])())], None
+        elif ix[0] == "mean":
+            return 1, [], "mean=%r" % float(obj.mean())
+        elif ix[0] == "cast" and feat not in SCALARS:
+            # a requested dtype must be honoured, the values stay
+            res = np.array(obj, dtype=np.float32)
+            if res.dtype != np.float32:
+                return 2, [], "np.array(dtype=float32) returned %s" % res.dtype
         elif ix[0] == "cast":
             # conversion with a lossy dtype; later reads must not see it
             res = np.array(obj, dtype=np.int64)
@@ -624,6 +649,20 @@ def observe(ds, feat, ix):
     except BaseException as e:
         return 2, [], "result unusable: %s: %s" % (type(e).__name__,
                                                   str(e)[:160])
+
+
+def write_foreign(path, case, truth):
+    """a dataset of another measurement (other run identifier, other data)
+    with the features of the origin"""
+    from dclab.rtdc_dataset.writer import RTDCWriter
+    from . import gen
+    meta = gen.base_meta(with_fl="trace" in case["kinds"],
+                         run_id="foreign-%d" % case["seed"])
+    with RTDCWriter(path, mode="append") as hw:
+        hw.store_metadata(meta)
+        for unit in case["steps"][0]["feats"]:
+            rows = _rows(truth, unit, list(range(case["n"])), True)
+            hw.store_feature(unit, _feature_data(unit, rows))
 
 
 def ref_dtype(ds0, feat, cache):
@@ -675,9 +714,18 @@ def run_case(args):
             d2 = d + "-moved"
             shutil.rmtree(d2, ignore_errors=True)
             os.rename(d, d2)
+            old0 = files[0]["path"]
             for info in files:
                 info["path"] = os.path.join(d2, info["sub"],
                                             os.path.basename(info["path"]))
+            if case["move"] == "stale" and not files[0]["err"]:
+                # a stale copy of the origin stays at the old absolute path
+                os.makedirs(os.path.dirname(old0), exist_ok=True)
+                shutil.copy(files[0]["path"], old0)
+            elif case["move"] == "foreign" and not files[0]["err"]:
+                # another measurement now lives at the old absolute path
+                os.makedirs(os.path.dirname(old0), exist_ok=True)
+                write_foreign(old0, case, truth)
             d = d2
         opened = {}
         refdt = {}
@@ -695,6 +743,26 @@ def run_case(args):
                 st, vals, msg = observe(ds, feat, ix)
                 est, evals = expected(truth, info, feat, ix)
                 flat.append([st] + vals)
+                if st == 1 and msg and msg.startswith("mean=") and \
+                        est == 1:
+                    import numpy as np
+                    want = float(np.nanmean([
+                        (float(decoy_value(feat, truth[feat][j]))
+                         if (info["innate"].get(feat) or (
+                             feat not in info["innate"] and
+                             feat in info.get("decoyfeat", ())))
+                         else float(truth[feat][j])) for j in info["omap"]]))
+                    got = float(msg[5:])
+                    if not abs(got - want) <= 1e-9 * max(1.0, abs(want)):
+                        fails.append((
+                            "file %d feature %s: mean() = %r, the origin "
+                            "events %s have mean %r" % (
+                                fid, feat, got, info["omap"][:8], want),
+                            None))
+                    msg = None
+                if st in (0, 1) and msg and msg.startswith("dtype=") and \
+                        feat in SCALARS:
+                    msg = None       # value equality is all the text asks
                 if st in (0, 1) and msg and msg.startswith("dtype="):
                     # dtype of what is handed out = dtype of the origin's
                     # feature (the fingerprints compare values only)
@@ -721,17 +789,31 @@ def run_case(args):
                     nontrivial = True
             # which stored location the basins were found at (0: the absolute
             # path, 1: the path relative to the referrer)
+            import pathlib
             for fid, ds in list(opened.items()):
                 try:
-                    first = set(bd["paths"][0]
-                                for bd in ds.basins_get_dicts()
-                                if bd.get("type") == "file")
-                    for bn in ds.basins:
-                        if bn.basin_type == "file":
-                            found.append(0 if str(bn.location) in first
-                                         else 1)
+                    used = set(str(bn.location) for bn in ds.basins
+                               if bn.basin_type == "file")
+                    for bd in ds.basins_get_dicts():
+                        if bd.get("type") != "file" or \
+                                len(bd.get("paths", [])) != 2:
+                            continue
+                        pabs = bd["paths"][0]
+                        prel = str(pathlib.Path(ds.path).parent
+                                   / pathlib.Path(bd["paths"][1]))
+                        if not os.path.exists(pabs):
+                            sabs = 0
+                        elif case.get("move") == "foreign" and \
+                                os.path.basename(pabs) == "f0.rtdc":
+                            sabs = 1
+                        else:
+                            sabs = 2
+                        srel = 2 if os.path.exists(prel) else 0
+                        obs = 0 if pabs in used else (1 if prel in used
+                                                      else -1)
+                        found.append([sabs, srel, obs])
                 except BaseException:
-                    pass
+                    stats["found_err"] = stats.get("found_err", 0) + 1
         finally:
             for ds in opened.values():
                 try:
@@ -739,7 +821,9 @@ def run_case(args):
                 except BaseException:
                     pass
         stats["files"] = len(files)
-        stats["found"] = [bool(case.get("move")), sorted(set(found))]
+        stats["found"] = sorted(set(tuple(x) for x in found))
+        stats["struct_skipped"] = sum(1 for i in files
+                                      if i.get("struct_skipped"))
         stats["chains"] = [[k] + info["chain"] + [info["omap"]]
                            for k, info in enumerate(files)
                            if info.get("chain")]
@@ -849,7 +933,9 @@ def gen_bigmap(rng, huge=False):
     are equal except for differences of 1..3 at a few positions; identical
     maps exercise the reuse"""
     if huge:
-        L = 100000 + rng.randint(1, 50)
+        # 131072 = events per chunk of a stored uint64 map
+        L = rng.choice([100000 + rng.randint(1, 50), 131071, 131072, 131073,
+                        131073] + ([262145] if huge == "thorough" else []))
         off = rng.choice([0, 0, 200000])
     else:
         L = rng.randint(3, 60)
@@ -1147,7 +1233,8 @@ def gen_focus_case(rng):
                 ix = ["array"]
             queries.append([fid, feat, ix])
     return dict(seed=seed, n=n, kinds=kinds, steps=steps,
-                move=rng.random() < 0.2, queries=queries)
+                move=rng.choice([False, False, False, True, "foreign"]),
+                queries=queries)
 
 
 def gen_case(rng, thorough=False):
@@ -1173,6 +1260,7 @@ def gen_case(rng, thorough=False):
     free = []           # True: features not stored go through a mapped proxy
     vfile = []          # units readable through file basins
     vint = []           # units readable through internal basins
+    ident = []          # the file's events are exactly the origin's
     rc = rng.choice([None, None, 2, 3, 7]) if n > 3 else None
     steps.append(dict(op="write", feats=list(units), basins=[], rechunk=rc))
     sizes.append(n)
@@ -1182,8 +1270,21 @@ def gen_case(rng, thorough=False):
     free.append(False)
     vfile.append([])
     vint.append([])
+    ident.append(True)
     nsteps = rng.randint(1, 6 if thorough else 5)
     for _ in range(nsteps):
+        # events of file i identical to the origin's?
+        while len(ident) < len(steps):
+            stp = steps[len(ident)]
+            if stp["op"] == "copy":
+                ident.append(ident[stp["src"]])
+            elif stp["op"] == "export":
+                ident.append(ident[stp["src"]] and not stp["pfilts"] and (
+                    not stp.get("filtered", True) or all(stp["filt"])))
+            else:
+                b0 = stp["basins"][0] if stp["basins"] else None
+                ident.append(b0 is not None and b0["kind"] == "file" and
+                             b0["map"] is None and ident[b0["src"]])
         k = len(steps)
         cands = [i for i in range(k) if not leaf[i]]
         src = cands[-1] if rng.random() < 0.65 else rng.choice(cands)
@@ -1296,7 +1397,17 @@ def gen_case(rng, thorough=False):
                                  else None),
                            verify=rng.random() < 0.3)]
             got = list(av if bfe is None else bfe)
-            if rng.random() < 0.2:
+            if src != 0 and ident[src] and set(av) != set(units) and \
+                    rng.random() < 0.6:
+                # the first basin (sorted first: basinmap2 < basinmap5)
+                # lists features its file does not have; the second basin
+                # (the origin, same events) has them
+                basins = [dict(kind="file", src=src, map=m,
+                               feats=list(units), name=2, verify=False),
+                          dict(kind="file", src=0, map=m, feats=None,
+                               name=5, verify=False)]
+                got = list(units)
+            elif rng.random() < 0.2:
                 # a second basin: same target and map, other features
                 bfe2 = sub(rng, av, 1)
                 basins.append(dict(kind="file", src=src, map=m,
@@ -1326,15 +1437,21 @@ def gen_case(rng, thorough=False):
                            feats=ifeats)]
             got = list(ifeats)
             gfile = []
+            idecoy = False
             if rng.random() < 0.5:
                 basins.append(dict(kind="file", src=src,
                                    map=[rows[j] for j in m], feats=None,
                                    name=None, verify=False))
                 got += av
                 gfile = list(av)
+                if rng.random() < 0.4:
+                    # the internal basin disagrees with the file basin:
+                    # internal basins have priority
+                    idecoy = True
+                    basins[0]["decoy"] = True
             steps.append(dict(op="write", feats=feats, basins=basins))
             sizes.append(len(m))
-            leaf.append(False)
+            leaf.append(idecoy)
             avail.append([u for u in units if u in feats or u in got])
             innate.append(list(feats))
             free.append(True)
@@ -1362,10 +1479,19 @@ def gen_case(rng, thorough=False):
                 # a conversion with a lossy dtype between ordinary reads
                 pat.insert(rng.randint(0, len(pat) - 1), ["cast"])
                 pat.append(rng.choice([["all"], ["slice", None, None, 2]]))
+            if feat in (SCALARS[0], SCALARS[2]) and rng.random() < 0.3:
+                # summaries of the feature
+                pat.insert(rng.randint(0, len(pat)),
+                           [rng.choice(["max", "min", "mean"])])
+            if feat == "image" or feat.startswith("trace/"):
+                if rng.random() < 0.15:
+                    pat.insert(rng.randint(0, len(pat)), ["cast"])
             for ix in pat:
                 queries.append([fid, feat, ix])
     return dict(seed=seed, n=n, kinds=kinds, steps=steps,
-                move=rng.random() < 0.3, queries=queries,
+                move=rng.choice([False, False, False, False, True, True,
+                                 "foreign", "stale"]),
+                queries=queries,
                 layout=rng.choice([None, None, None, "sub", "sibling"]),
                 special=rng.random() < 0.3)
 
@@ -1397,6 +1523,8 @@ def r_index(ix):
         return "AArray"
     if t == "cast":
         return "ACast"
+    if t in ("max", "min", "mean"):
+        return {"max": "AMax", "min": "AMin", "mean": "AMean"}[t]
     if t == "slice":
         return "(ISlice %s %s %s)" % tuple(r_opt(x, common.zlit)
                                            for x in ix[1:4])
@@ -1438,7 +1566,9 @@ def render(case):
                     idata = []
                     for nm in expand(b["feats"]):
                         idata.append("(%d, %s)" % (FEAT_ID[nm], common.zlist(
-                            [fp(nm, truth[nm][j]) for j in base])))
+                            [fp(nm, decoy_value(nm, truth[nm][j])
+                                if b.get("decoy") else truth[nm][j])
+                             for j in base])))
                     rb.append("(SBInternal %s %s)" % (
                         common.clist(idata), common.zlist(b["map"])))
                 else:
@@ -1468,7 +1598,8 @@ def render(case):
                 r_opt(st["feats"], r_feats)))
     def r_access(ix):
         r = r_index(ix)
-        return r if r in ("AIter", "AArray", "ACast") else \
+        return r if r in ("AIter", "AArray", "ACast", "AMax", "AMin",
+                          "AMean") else \
             "(AIndex %s)" % r
     qs = ["(%d, %d, %s)" % (q[0], FEAT_ID[q[1]], r_access(q[2]))
           for q in case["queries"]]
@@ -1506,7 +1637,8 @@ def run(run):
     # large-index family (store_basin reuse test) and one big export chain
     nbig = 40 if run.thorough else 6
     for k in range(nbig):
-        cases.append(gen_bigmap(run.rng, huge=(k % 8 == 0)))
+        cases.append(gen_bigmap(run.rng, huge=(
+            False if k % 6 else ("thorough" if run.thorough else True))))
     for k in range(3 if run.thorough else 1):
         cases.append(gen_bigchain(run.rng))
     # the slow ones first
@@ -1527,13 +1659,24 @@ def run(run):
         if c.get("nomodel"):
             run.count("bigchain")
         run.count("n=%d" % c["n"])
-        run.count("move" if c.get("move") else "stay")
+        run.count("move:%s" % (c.get("move") or "no"))
+        run.count("layout:%s" % (c.get("layout") or "same-dir"))
+        if c.get("special"):
+            run.count("special values (nan/inf)")
         for st in c["steps"]:
             if st["op"] == "export":
                 run.count("export:child%d" % len(st["pfilts"]))
+                if not st.get("filtered", True):
+                    run.count("export:unfiltered")
+                elif not any(expand_filt(st["filt"])):
+                    run.count("export:empty selection")
             elif st["op"] == "copy":
                 run.count("copy:" + st["how"])
             else:
+                if any(b.get("decoy") for b in st["basins"]):
+                    run.count("write:internal basin disagrees with file")
+                if [b.get("name") for b in st["basins"]] == [2, 5]:
+                    run.count("write:basin lists features its file lacks")
                 kinds = [b["kind"] + ("" if b.get("map") is not None
                                       else "-same") for b in st["basins"]]
                 run.count("write:" + ("+".join(kinds) or "origin"))
@@ -1568,18 +1711,36 @@ def run(run):
         if m != impl:
             run.mismatch(dict(c, chain_end=k), m, impl, what="chain_map")
     run.count("chain_map ties", len(chains))
-    # find_basin (C07_moved_together): which stored location is used
+    # find_basin (C07_moved_together*): which stored location is used,
+    # given what lives at the absolute and at the relative location.  Only
+    # forced outcomes are compared (when the basin is at both places the
+    # property does not say which one to open).
+    obs = {}
+    for c, res in reg:
+        for sabs, srel, o in res["stats"].get("found", []):
+            obs.setdefault((sabs, srel), set()).add(o)
+    keys = sorted(obs)
     modelf = common.coq_map(run.scratch, "c07find", HEADER, "run_find",
-                            ["true", "false"], shard=2)
-    for moved, m in zip((True, False), modelf):
-        seen = sorted(set(x for c, res in reg
-                          for x in res["stats"].get("found", [None, []])[1]
-                          if res["stats"].get("found", [None])[0] == moved))
-        if seen:
-            run.corr_checked += 1
-            if seen != m:
-                run.mismatch(dict(kind="find_basin", moved=moved), m, seen,
-                             what="find_basin")
+                            ["(%d, %d)" % k for k in keys], shard=20)
+    nfound = 0
+    for k, m in zip(keys, modelf):
+        run.count("find_basin abs=%d rel=%d" % k, 1)
+        if k[0] == 2:
+            continue
+        nfound += 1
+        run.corr_checked += 1
+        if sorted(obs[k]) != m:
+            run.mismatch(dict(kind="find_basin", abs_state=k[0],
+                              rel_state=k[1]), m, sorted(obs[k]),
+                         what="find_basin")
+    skipped = sum(res["stats"].get("struct_skipped", 0) +
+                  res["stats"].get("found_err", 0) for _c, res in reg)
+    run.count("structural checks skipped", skipped)
+    if len(chains) == 0 or nfound == 0 or skipped > len(reg) // 5:
+        run.broken.append(("tie-floor(C07)",
+                           "chain_map ties %d, find_basin ties %d, "
+                           "structural checks skipped %d" % (
+                               len(chains), nfound, skipped)))
     run.extra["chain_depths"] = chain_depth_hist([c for c, _ in reg])
 
 
